@@ -151,7 +151,9 @@ class DialectRecogniser {
     size_t b = p_;
     while (!eof() && numchar(cur())) p_++;
     std::string tok = t_.substr(b, p_ - b);
-    if (tok.size() > 63) return dontcare("number token longer than 63 characters");
+    // number literals are limited to 63 characters: a longer token is never a number of the dialect (its 64th character
+    // cannot follow a value), whatever its first 63 characters spell
+    if (tok.size() > 63) { p_ = b; return fail(D_INVALID, "number token longer than 63 characters"); }
     size_t i = 0;
     bool neg = false;
     if (i < tok.size() && (tok[i] == '-' || tok[i] == '+')) { neg = tok[i] == '-'; i++; }
